@@ -261,10 +261,8 @@ pub fn select<const N: usize>(prop: &str, act: &Act, tr: &Trans) -> (Vec<(Proble
                 if act.is_mutator() || matches!(act, Act::IntoIter(_)) {
                     for p in &tr.problems {
                         if matches!(p.kind, PKind::Trace | PKind::Contents | PKind::Views | PKind::PanicMismatch) {
-                            // a missing *documented* panic is C11's business
-                            if p.kind == PKind::PanicMismatch && tr.exp.panics {
-                                continue;
-                            }
+                            // (a mutator that returns normally where the documentation promises a panic does not
+                            // implement the documented operation either)
                             sel.push((p.clone(), ""));
                         }
                     }
